@@ -888,5 +888,9 @@ func init() {
 		},
 		WorkerEnv: []string{"GOGC=off", "GODEBUG=clobberfree=1,invalidptr=1", "GOMAXPROCS=2"},
 		Budget:    func(tier string) time.Duration { return 40 * time.Minute },
+		// a forced collection with clobberfree=1 has to overwrite everything it frees, and GOGC=off lets garbage pile up
+		// between the injected collections: on a loaded machine one execution was seen to take more than two minutes
+		// (not reproducible on replay). A real hang is still caught, ten minutes in.
+		StallTimeout: 10 * time.Minute,
 	})
 }
